@@ -21,7 +21,7 @@ EXPLANATION = (
 ASSUMPTIONS = [
     "byte contents are irrelevant to the protocol (it only concatenates, slices and measures): buffers are intervals of the output stream (Seg); replay uses real bytes",
     "partitions P <= 3 (thorough: 4), chunks per partition <= 2 (thorough: 3 for P <= 2), all binary merge trees over adjacent partitions, 1-2 sub-streams through collate, header/footer on/off, writes-per-partition in {1,2,3}",
-    "the writer's part-number range can hold 1 + P * writes_per_chunk ids (min_part = 1, max_part = 10000)",
+    "the writer's part-number range can hold 1 + P * writes_per_chunk ids (min_part 1 or 5, max_part = min_part + 9999)",
     "dask's own graph execution (which tree it picks, retries) is outside the claim: every tree over adjacent partitions is explored instead",
     "spill_sz >= 0 (0 disables spilling, as mpu_write does); min_write_sz >= 1; chunk sizes >= 0; header/footer sizes >= 1",
 ]
@@ -143,7 +143,7 @@ def all_trees(lo, hi):
     return out
 
 
-def h_scenario(parts, header, footer, wpc, trees, writer=True, spill="sym"):
+def h_scenario(parts, header, footer, wpc, trees, writer=True, spill="sym", min_part=1):
     """parts: per sub-stream, list of chunks-per-partition; trees: per sub-stream merge tree"""
     import odc.geo.cog._mpu as mpu
 
@@ -185,7 +185,7 @@ def h_scenario(parts, header, footer, wpc, trees, writer=True, spill="sym"):
         bags.append(FakeBag(plist))
     data_end = cur
     total = data_end + ftr
-    w = Writer(minw) if writer else None
+    w = Writer(minw, min_part=min_part, max_part=min_part + 9999) if writer else None
     seen = {}
 
     def mk_h(obs, **kw):
@@ -407,6 +407,9 @@ def _scn_params(tier, rng):
         out = base + fixed3 + p3[:6]
         out.append(dict(parts=[[1, 2]], header=True, footer=True, wpc=1, trees=[[0, 1]], writer=False))
         out.append(dict(parts=[[2]], header=True, footer=False, wpc=3, trees=[0]))
+        # a writer whose part numbers do not start at 1
+        out.append(dict(parts=[[1, 2]], header=True, footer=True, wpc=1, trees=[[0, 1]], min_part=5))
+        out.append(dict(parts=[[2], [1]], header=False, footer=False, wpc=2, trees=[0, 0], min_part=5))
         return out
     out = shapes(3, 2, (1, 2, 3))
     out += [dict(s, spill="0") for s in shapes(2, 2, (1,), two_substreams=False)]
